@@ -79,9 +79,29 @@ def lean_files():
                 yield os.path.join(root, f)
 
 
-def forbidden_scan():
+def import_closure(mods):
+    """local modules (RomeaModel.*, RomeaProofs.*, Drivers.*) reachable from `mods` through `import` lines"""
+    seen, stack = set(), list(mods)
+    while stack:
+        m = stack.pop()
+        if m in seen:
+            continue
+        f = os.path.join(LEAN, m.replace('.', '/') + '.lean')
+        if not os.path.exists(f):
+            continue
+        seen.add(m)
+        for line in open(f):
+            mm = re.match(r'\s*(?:public\s+)?import\s+((?:RomeaModel|RomeaProofs|Drivers)[\w.]*)', line)
+            if mm:
+                stack.append(mm.group(1))
+    return seen
+
+
+def forbidden_scan(mods=None):
+    """forbidden tokens in every Lean file the property's proofs and driver depend on"""
     hits = []
-    for p in lean_files():
+    files = [os.path.join(LEAN, m.replace('.', '/') + '.lean') for m in sorted(import_closure(mods))] if mods else list(lean_files())
+    for p in files:
         body = strip_comments(open(p).read())
         for m in FORBIDDEN.finditer(body):
             line = body.count('\n', 0, m.start()) + 1
@@ -166,7 +186,8 @@ def stage_A(plugin, tier, scratch):
             res['failed'] = sorted(bad) or ['lake build failed (no located error)']
             if not res['errors']:
                 res['errors'] = r.stdout.split('\n')[-15:]
-        res['forbidden'] = forbidden_scan()
+        res['forbidden'] = forbidden_scan(mods + (['Drivers.' + driver.split('_')[1].upper()] if driver else []))
+        res['scanned_modules'] = len(import_closure(mods))
         if res['forbidden']:
             res['ok'] = False
         if res['build_ok'] and res['obligations']:
@@ -399,15 +420,19 @@ def run_check(plugin, pid, seed, tier, args, scratch, t_start):
         log('    forbidden token: ' + e)
 
     # ---- H
-    exe, err = build_harness(plugin, scratch)
-    if exe is None:
-        log('[%s] H harness build FAILED (tool failure, not a verdict on the property)\n%s' % (pid, err))
-        write_evidence(plugin, pid, seed, tier, t_start, A, None, None, [], [], gen_info, ctx, note='harness build failed')
-        # the repository no longer compiles against the harness: the property is not shown to hold
-        rp = write_replay(pid, seed, tier, 'H', 'harness build', [], err, 'harness does not compile against the working tree')
-        log('VIOLATION property=%s replay=%s no-failing-input-found' % (pid, rp))
-        return 1
+    exe = None
+    if getattr(plugin, 'HARNESS', None):
+        exe, err = build_harness(plugin, scratch)
+        if exe is None:
+            log('[%s] H harness build FAILED (tool failure, not a verdict on the property)\n%s' % (pid, err))
+            write_evidence(plugin, pid, seed, tier, t_start, A, None, None, [], [], gen_info, ctx, note='harness build failed')
+            # the repository no longer compiles against the harness: the property is not shown to hold
+            rp = write_replay(pid, seed, tier, 'H', 'harness build', [], err, 'harness does not compile against the working tree')
+            log('VIOLATION property=%s replay=%s no-failing-input-found' % (pid, rp))
+            return 1
     model_exe = os.path.join(LEAN, '.lake', 'build', 'bin', plugin.DRIVER) if getattr(plugin, 'DRIVER', None) else None
+    ctx['A'] = A
+    ctx['gen_info'] = gen_info
 
     # ---- cases
     if args.replay:
@@ -420,7 +445,7 @@ def run_check(plugin, pid, seed, tier, args, scratch, t_start):
 
     # ---- B + C inputs
     t0 = time.time()
-    impl = run_parallel(exe, cases, args.jobs, hang)
+    impl = run_parallel(exe, cases, args.jobs, hang) if exe else [[] for _ in cases]
     t_impl = time.time() - t0
     t0 = time.time()
     model = run_parallel(model_exe, cases, args.jobs, 600) if (model_exe and A['driver_ok']) else None
@@ -493,9 +518,12 @@ def run_check(plugin, pid, seed, tier, args, scratch, t_start):
     replay = None
     if new_failures:
         f = new_failures[0]
-        ci = f['case_index']
-        case = cases_all[ci]
-        replay = write_replay(pid, seed, tier, 'C', f.get('kind'), [case], {'impl_out': impl_all[ci], 'model_out': (model[ci] if model and ci < len(model) else None)}, f.get('detail'))
+        ci = f.get('case_index')
+        if ci is None:   # found by extra_probe (not a line-protocol case): the failure carries its own replay data
+            replay = write_replay(pid, seed, tier, 'C', f.get('kind'), f.get('cases', []), f.get('replay', {'fields': f.get('fields')}), f.get('detail'))
+        else:
+            case = cases_all[ci]
+            replay = write_replay(pid, seed, tier, 'C', f.get('kind'), [case], {'impl_out': impl_all[ci], 'model_out': (model[ci] if model and ci < len(model) else None)}, f.get('detail'))
         log('    failing input: kind=%s detail=%s' % (f.get('kind'), str(f.get('detail'))[:400]))
         log('VIOLATION property=%s replay=%s' % (pid, os.path.relpath(replay, VERIF)))
         rc = 1
@@ -594,6 +622,8 @@ def write_evidence(plugin, pid, seed, tier, t_start, A, cases, impl, disagreemen
         'explanation': getattr(plugin, 'EXPLANATION', ''),
         'notes': ctx.get('notes', []) + ([note] if note else []),
     }
+    for k_, v_ in ((stats or {}).get('evidence_override') or {}).items():
+        cov[k_] = v_
     ev = {
         'property_id': pid, 'tier': tier, 'seed': seed, 'level': level, 'coverage': cov,
         'assumptions': list(getattr(plugin, 'ASSUMPTIONS', [])),
